@@ -956,8 +956,13 @@ class HistogramBase(abc.ABC):
                 adapted_self = self + 0 * other
                 adapted_other = 0 * self + other
                 self._coerce_dtype(other.dtype)
-                self.frequencies = adapted_self.frequencies - adapted_other.frequencies
-                self.errors2 = adapted_self.errors2 + adapted_other.errors2
+                # The helper histograms (0 * other, ...) may have a wider dtype than the operands
+                self.frequencies = (
+                    adapted_self.frequencies - adapted_other.frequencies
+                ).astype(self.dtype)
+                self.errors2 = (adapted_self.errors2 + adapted_other.errors2).astype(
+                    self.dtype
+                )
                 self._missed = self._missed - other._missed
             self._stats = INVALID_STATISTICS
             return self
